@@ -158,9 +158,75 @@ func c34Load(t *testing.T, n int) *c34Data {
 			fmt.Fprintf(&sb, " m{i=\"%d\",grp=\"g%d\"} %d+%dx10\n", i, i%3, i, i%5+1)
 		}
 	}
+	// ratio series for parameters that vary from step to step: rr{k="<profile>"}
+	for j, prof := range c34Profiles {
+		fmt.Fprintf(&sb, " rr{k=\"%d\"}", j)
+		for _, v := range prof {
+			fmt.Fprintf(&sb, " %s", c34f(v))
+		}
+		sb.WriteString("\n")
+	}
 	d.stor = promqltest.LoadedStorage(t, sb.String())
 	d.eng = promqltest.NewTestEngine(t, false, 0, 10000000)
 	return d
+}
+
+// c34Profiles: per-step ratios (11 steps, 1m apart) for range queries whose ratio parameter is not a
+// literal. They mix 0, 1 and interior ratios so that the per-query extremes of r and of r-1 take every
+// combination of {0, interior, 1} / {-1, interior, 0}.
+var c34Profiles = [][]float64{
+	{0.3, 1, 0, 0.5, 1, 0.7, 0.25, 1, 0, 0.9, 0.1},
+	{0.3, 0.5, 1, 0.5, 0.3, 0.7, 0.25, 0.6, 0.4, 0.9, 0.1}, // max exactly 1 at one step, never 0
+	{0.3, 0.5, 0, 0.5, 0.3, 0.7, 0.25, 0.6, 0.4, 0.9, 0.1}, // min exactly 0 at one step, never 1
+	{1, 1, 1, 1, 1, 1, 1, 1, 1, 1, 1},
+	{0, 0, 0, 0, 0, 0, 0, 0, 0, 0, 0},
+	{0, 1, 0, 1, 0, 1, 0, 1, 0, 1, 0},
+	{0.5, 0.5, 0.5, 0.5, 0.5, 0.5, 0.5, 0.5, 0.5, 0.5, 0.5},
+}
+
+// c34Varying: a range query whose ratio comes from scalar(rr) must select, at every step, exactly what
+// the instant query with that step's ratio as a literal selects — for r and for the complement r-1.
+func c34Varying(r *vx.Run, d *c34Data) {
+	lit := map[string]map[string]bool{}
+	litSel := func(expr string) map[string]bool {
+		if m, ok := lit[expr]; ok {
+			return m
+		}
+		m, err := d.instant(expr, time.Unix(120, 0))
+		if err != nil {
+			r.Violation("query-error", fmt.Sprintf("%s: %v", expr, err), c34Replay{Kind: "varying", N: len(d.lsets)})
+			m = map[string]bool{}
+		}
+		lit[expr] = m
+		return m
+	}
+	for j, prof := range c34Profiles {
+		for _, compl := range []bool{false, true} {
+			param := fmt.Sprintf("scalar(rr{k=\"%d\"})", j)
+			if compl {
+				param += " - 1"
+			}
+			q := fmt.Sprintf("limit_ratio(%s, m)", param)
+			steps, err := d.rng(q, time.Unix(0, 0), time.Unix(600, 0), time.Minute)
+			r.Count("evaluations", 1)
+			if err != nil {
+				r.Violation("query-error", fmt.Sprintf("%s (range): %v", q, err), c34Replay{Kind: "varying", N: len(d.lsets)})
+				continue
+			}
+			for i, got := range steps {
+				le := fmt.Sprintf("limit_ratio(%s, m)", c34f(prof[i]))
+				if compl {
+					le = fmt.Sprintf("limit_ratio(%s - 1, m)", c34f(prof[i]))
+				}
+				want := litSel(le)
+				if c34SetKey(got) != c34SetKey(want) {
+					r.Violation("varying-ratio-range-step-differs-from-literal", fmt.Sprintf("%s over [0,600s] step 1m, profile %v: step %d (ratio %v) selects %d series, the instant query %s selects %d", q, prof, i, prof[i], len(got), le, len(want)), c34Replay{Kind: "varying", R: prof[i], N: len(d.lsets), Series: q})
+					break
+				}
+				r.Distinct("distinct_outcomes", "varying "+c34SetKey(got))
+			}
+		}
+	}
 }
 
 func (d *c34Data) instant(q string, ts time.Time) (map[string]bool, error) {
@@ -366,6 +432,10 @@ func TestVerifC34(t *testing.T) {
 			}
 			return
 		}
+		if rp.Kind == "varying" {
+			c34Varying(r, c34Load(t, rp.N))
+			return
+		}
 		c34Query(r, c34Load(t, rp.N), ratio)
 		return
 	}
@@ -469,6 +539,7 @@ func TestVerifC34(t *testing.T) {
 	}
 	qr = c34SortUniq(qr)
 	sets := make([]map[string]bool, len(qr))
+	c34Varying(r, d)
 	r.ParallelN(int64(len(qr)), func(i int64) { sets[i] = c34Query(r, d, qr[i]) })
 	var prev map[string]bool
 	var prevR float64
